@@ -103,6 +103,18 @@ def busy_writer(rng, ident):
     return "scn %s max=2000 protocols=%s nt=1 family=cancel-behind-busy-writer wants=%s script=%s" % (ident, protos, ",".join(wants), ";".join(s))
 
 
+def undecodable_reply(rng, ident):
+    """the reply to a call arrives whole but its result does not decode into the caller's result type: the receive loop stops
+    with the decoding error, the call fails - and is still accounted once, with its frame plus the reply payload that had been
+    received when the record was finished"""
+    me = b"p.m1"
+    bad = rng.choice([("m", [(("s", b"A"), 7), (("s", b"B"), ("s", b"seven"))]), ("s", b"not-a-struct"), [1, ("s", b"x")]])
+    ch = mp.Chooser()
+    resp = frames.frame(frames.content([1, 0, None, bad] + ([mp.gen_value(rng, 1)] if rng.chance(1, 3) else []), ch), ch)
+    s = ["calltyped/c1/%s/%s" % (me.hex(), T(scn.arg(1, rng.below(40)))), "feednowait/" + resp.hex(), "await/c1", "settle"]
+    return "scn %s max=2000 protocols=70:%s nt=1 family=undecodable-reply wants=call~1~withreply script=%s" % (ident, me[2:].hex(), ";".join(s))
+
+
 def explore(ctx):
     rng, tier = ctx["rng"], ctx["tier"]
     if ctx.get("replay"):
@@ -113,6 +125,8 @@ def explore(ctx):
             lines.append(scenario(rng, "s%d" % k))
         for k in range({"quick": 8, "thorough": 100, "search": 20}[tier]):
             lines.append(busy_writer(rng, "w%d" % k))
+        for k in range({"quick": 6, "thorough": 60, "search": 12}[tier]):
+            lines.append(undecodable_reply(rng, "u%d" % k))
         for k in range({"quick": 300, "thorough": 5000, "search": 800}[tier]):
             ops = []
             for _ in range(rng.below(7)):
